@@ -137,21 +137,29 @@ package casketfile
 //@ func (*parser).doSingleImport
 //@   requires p != nil
 
+//@ // C10: a defined snippet (also one with an empty body: snippetTokens returns a non-nil empty slice) takes precedence over
+//@ // the file system: importing it never consults a glob pattern. fileLookups counts filepath.Glob calls.
+//@ ghost fileLookups int
+//@ extern path/filepath.Glob
+//@   modifies ghost:fileLookups
+//@   ensures fileLookups == old(fileLookups) + 1
+//@ define importArg() string = replaceEnvVars(old(p.tokens[p.cursor+1].Text))
 //@ func (*parser).doImport
 //@   requires p != nil && 0 <= p.cursor && p.cursor < len(p.tokens)
-//@   modifies Dispenser.cursor, Dispenser.tokens
+//@   modifies Dispenser.cursor, Dispenser.tokens, ghost:fileLookups
+//@   ensures [defined_snippet_wins_over_files] (old(p.cursor) < old(len(p.tokens)) - 1 && old(p.definedSnippets != nil) && old(p.definedSnippets[importArg()] != nil)) ==> fileLookups == old(fileLookups)
 //@   ensures [cursor_back] result == nil ==> (p.cursor == old(p.cursor) && p.cursor >= 0)
 //@   ensures [cursor_nonneg] p.cursor >= 0
 
 //@ func (*parser).directive
 //@   requires p != nil && 0 <= p.cursor && p.cursor < len(p.tokens) && p.block.Tokens != nil
-//@   modifies Dispenser.cursor, Dispenser.tokens, MV:map[string][]github.com/tmpim/casket/casketfile.Token, MD:map[string][]github.com/tmpim/casket/casketfile.Token, E:github.com/tmpim/casket/casketfile.Token
+//@   modifies Dispenser.cursor, Dispenser.tokens, MV:map[string][]github.com/tmpim/casket/casketfile.Token, MD:map[string][]github.com/tmpim/casket/casketfile.Token, E:github.com/tmpim/casket/casketfile.Token, ghost:fileLookups
 //@   ensures [cursor_ok] p.cursor >= -1
 //@   loop 1 invariant p.cursor >= -1
 
 //@ func (*parser).directives
 //@   requires p != nil && p.cursor >= -1 && p.block.Tokens != nil
-//@   modifies Dispenser.cursor, Dispenser.tokens, MV:map[string][]github.com/tmpim/casket/casketfile.Token, MD:map[string][]github.com/tmpim/casket/casketfile.Token, E:github.com/tmpim/casket/casketfile.Token
+//@   modifies Dispenser.cursor, Dispenser.tokens, MV:map[string][]github.com/tmpim/casket/casketfile.Token, MD:map[string][]github.com/tmpim/casket/casketfile.Token, E:github.com/tmpim/casket/casketfile.Token, ghost:fileLookups
 //@   ensures [cursor_ok] p.cursor >= -1
 //@   loop 1 invariant p.cursor >= -1 && p.block.Tokens != nil
 
@@ -161,11 +169,11 @@ package casketfile
 //@   pure reads Dispenser
 //@ func (*parser).blockContents
 //@   requires p != nil && p.cursor >= 0 && p.block.Tokens != nil
-//@   modifies Dispenser.cursor, Dispenser.tokens, MV:map[string][]github.com/tmpim/casket/casketfile.Token, MD:map[string][]github.com/tmpim/casket/casketfile.Token, E:github.com/tmpim/casket/casketfile.Token
+//@   modifies Dispenser.cursor, Dispenser.tokens, MV:map[string][]github.com/tmpim/casket/casketfile.Token, MD:map[string][]github.com/tmpim/casket/casketfile.Token, E:github.com/tmpim/casket/casketfile.Token, ghost:fileLookups
 //@   ensures [cursor_ok] p.cursor >= -1
 //@ func (*parser).addresses
 //@   requires p != nil && 0 <= p.cursor && p.cursor < len(p.tokens)
-//@   modifies Dispenser.cursor, Dispenser.tokens, ServerBlock.Keys, parser.eof
+//@   modifies Dispenser.cursor, Dispenser.tokens, ServerBlock.Keys, parser.eof, ghost:fileLookups
 //@   ensures [cursor_ok] p.cursor >= 0
 //@   loop 1 invariant p.cursor >= 0
 
